@@ -5,8 +5,8 @@ V = os.path.dirname(os.path.dirname(os.path.abspath(__file__)))
 
 CLAIMED = {
  "C05": dict(
-    text="Bounded model checking of the real steel-rc code with Kani/CBMC: one real operation (clone, drop, get_mut, make_mut, try_unwrap, explicit merge) from EVERY count word that satisfies the written representation invariant, for every acting thread among 3 logical threads, plus the base case; an inductive step, so histories of any length are covered provided the invariant is right. Counterexamples are turned into a history of real operations on real OS threads (found by a native search over the real count word) and run under valgrind before anything is reported.",
-    note="Trusted: Kani 0.68/CBMC 6.11 semantics of Rust; the invariant inv() in harness/rc.rs; stubs (current_thread, thread_cleanup, enqueue); sequentially consistent atomics; counters <= 2^20; unwind 3. Outside: weak memory, dashmap internals, thread-id reuse, >3 threads.",
+    text="Bounded model checking of the real steel-rc code with Kani/CBMC: one real operation (clone, drop, get_mut, make_mut, try_unwrap, explicit merge) from EVERY count word that satisfies the written representation invariant, for every acting thread among 3 logical threads, plus the base case; an inductive step, so histories of any length are covered provided the invariant is right; additionally one whole foreign operation interleaved at one symbolic shared access of the analysed operation (preemption between an operation's accesses). Counterexamples are turned into a history of real operations on real OS threads (found by a native search over the real count word; interleavings are forced through the cfg-guarded steel-rc hook) and run under valgrind before anything is reported.",
+    note="Trusted: Kani 0.68/CBMC 6.11 semantics of Rust; the invariant inv() in harness/rc.rs; stubs (current_thread, thread_cleanup, enqueue); sequentially consistent atomics; counters <= 2^20; unwind 3-4; interleaving depth 1 (one foreign operation at one access). Outside: weak memory, dashmap internals, thread-id reuse, >3 threads.",
     technique="SAT-based bounded model checking (Kani/CBMC) of one inductive step over a symbolic reference-count word; native replay under valgrind",
     design="§4 C05"),
  "C03": dict(
@@ -15,7 +15,7 @@ CLAIMED = {
     technique="SAT-based bounded model checking (Kani/CBMC) of one inductive step over a symbolic reference-count word; native replay under valgrind",
     design="§4 C03"),
  "C04": dict(
-    text="Bounded model checking (Kani/CBMC) of the real mutable-storage allocator FreeList<T> (instantiated at u8): one weak collection (quick) / one allocation (thorough) from EVERY 3-slot pre-state satisfying the invariant; no slot with a held handle is overwritten or freed, the new handle reads back its value, the invariant is re-established.",
+    text="Bounded model checking (Kani/CBMC) of the real mutable-storage allocator FreeList<T> (instantiated at u8): one weak collection and one allocation (thorough: also mark reset + recount) from EVERY 3-slot pre-state satisfying the invariant; no slot with a held handle is overwritten or freed, the new handle reads back its value, the invariant is re-established.",
     note="N = 3 slots, >= 2 free before an allocation (growth by 25600 slots and compaction outside). Outside: completeness of the root set and of the marker's traversal of value kinds (need a running VM), the parallel marker.",
     technique="SAT-based bounded model checking (Kani/CBMC) of one allocator step from a symbolic valid state; native replay by concrete playback",
     design="§4 C04"),
@@ -25,7 +25,7 @@ CLAIMED = {
     technique="SAT-based bounded model checking (Kani/CBMC) of symbolic operation histories on the real symbol table with a ghost model; native replay by concrete playback",
     design="§4 C06"),
  "C07": dict(
-    text="Bounded model checking (Kani/CBMC) with panic/overflow/shift/division checks on: real numeric primitives on full-width symbolic operands return Ok or Err and never panic; a failed evaluation rolled back in the real symbol table leaves no residue.",
+    text="Bounded model checking (Kani/CBMC) with panic/overflow/shift/division checks on: real numeric primitives (arithmetic-shift and abs at full width, expt with exponent -30, the division family on stated operand ranges) return Ok or Err and never panic; a failed evaluation rolled back in the real symbol table leaves no residue.",
     note="Kernel level only. Outside: arbitrary source text (reader not encodable, see C12), expansion/compilation, stack reset after errors, native stack depth.",
     technique="SAT-based bounded model checking (Kani/CBMC) of real primitives with Kani's panic checks; native replay by concrete playback",
     design="§4 C07"),
@@ -35,18 +35,18 @@ CLAIMED = {
     technique="SAT-based bounded model checking (Kani/CBMC) of allocator accounting steps from a symbolic valid state",
     design="§4 C19"),
  "C20": dict(
-    text="Bounded model checking (Kani/CBMC) of the real scalar conversions at the host boundary on full-width symbolic values: Ok(v) only with the same mathematical value, out of range => Err, host integers never wrap on the way in (big integer above the machine word), round trips are the identity.",
-    note="Scalars only (i8..u128, f32, f64, char, bool, unit, Option<i32>, big-integer sources up to 2^66). Outside: strings/vectors/maps/sets/tuples/structs, argument extraction and arity checks in register_fn (need an Engine), lent references (nursery is a destructor-bearing thread-local).",
-    technique="SAT-based bounded model checking (Kani/CBMC) of the real conversion impls on full-width symbolic scalars; native replay by concrete playback",
+    text="Bounded model checking (Kani/CBMC) of the real scalar conversions at the host boundary on full-width symbolic values: Ok(v) only with the same mathematical value, out of range => Err, host integers never wrap on the way in (big integer above the machine word), round trips are the identity. Plus an SMT query per register_fn wrapper closure (MIR -> QF_BV, z3): no two different argument counts reach the host function call.",
+    note="Scalars only (i8..u128, f32, f64, char, bool, unit, Option<i32>, big-integer sources up to 2^66); arity: only branch conditions on the argument-slice length are interpreted, every other branch is free. Outside: strings/vectors/maps/sets/tuples/structs, argument value extraction in register_fn (needs an Engine), lent references (nursery is a destructor-bearing thread-local).",
+    technique="SAT-based bounded model checking (Kani/CBMC) of the real conversion impls on full-width symbolic scalars, and SMT (z3, QF_BV) over the MIR of the register_fn wrapper closures for the arity half; native replay by concrete playback / a script call through the real Engine",
     design="§4 C20"),
  "C10": dict(
-    text="Bounded model checking with Kani/CBMC of the real numeric primitives on full-width (64-bit) symbolic operands against a 128-bit oracle and a canonical-form check; counterexamples are replayed natively with Kani's concrete playback, which runs the real code.",
-    note="Trusted: Kani/CBMC; num-bigint (its `BigInt += isize`/`*= isize` are modelled by exact i128 arithmetic and the x86 carry intrinsics by their definition); feature set without jit2. Outside: the specialised arithmetic opcodes inlined in the VM loop, the constant folder, number<->string, gcd/lcm/expt, big operands above two limbs.",
+    text="Bounded model checking with Kani/CBMC of the real numeric primitives on symbolic operands (full 64-bit width for + - negate abs parity arithmetic-shift int/float equality; stated smaller ranges for division, multiplication values, expt, rationals) against a 128-bit oracle and a canonical-form check; counterexamples are replayed natively with Kani's concrete playback, which runs the real code.",
+    note="Trusted: Kani/CBMC; num-bigint (its `BigInt += isize`/`*= isize` are modelled by exact i128 arithmetic and the x86 carry intrinsics by their definition); feature set without jit2. `BigInt << u32` and `BigInt::pow` are recording stubs. Outside: the specialised arithmetic opcodes inlined in the VM loop, the constant folder, number<->string, gcd/lcm, expt beyond exponent -1/-30, full-width division and multiplication values, big-integer division, big operands above two limbs.",
     technique="SAT-based bounded model checking (Kani/CBMC) of the real primitives with a 128-bit arithmetic oracle; native replay by concrete playback",
     design="§4 C10"),
  "C15": dict(engine="mir-bmc",
     text="Bounded model checking of the stop-the-world protocol: per-thread automata are extracted from the compiler's MIR of the real functions (safepoint entry/exit, poll, stop/resume, stack enumeration, global-table swap, collection and global-definition entry points), composed with a symbolic scheduler and unrolled into a bit-vector SMT formula; the solver either shows no schedule within the bound lets a world-stopper look at a thread that is running interpreter code, or returns a schedule, which is replayed on the real engine through cfg-guarded scheduling hooks.",
-    note="Trusted: rustc's MIR dump, the vocabulary/assumption tables in lib/mirbmc.py, z3. Assumed: sequentially consistent atomics, no spurious park wake-ups, native threads only, all threads registered. Bounds: 2 threads (quick) / 3 (thorough), K <= 28..40 scheduler steps. Outside: native-code tier, make_thread forks, weak memory.",
+    note="Trusted: rustc's MIR dump, the vocabulary/assumption tables in lib/mirbmc.py, z3. Assumed: sequentially consistent atomics, native threads only, all threads registered; a thread may start with a stale unpark token. Bounds: 2 threads (quick) / 3 (thorough), K <= 28..40 scheduler steps (one step = one shared access; covers a stop request up to its first scan window and wait loop, not a whole stop-resume cycle). Thorough tier: recorded traces of the real engine must be runs of the model (conformance). Outside: native-code tier, make_thread forks, weak memory.",
     technique="SMT-based bounded model checking (z3, QF_BV) of MIR-extracted thread automata with a symbolic scheduler; native schedule replay",
     design="§3, §4 C15"),
  "C16": dict(engine="mir-bmc",
